@@ -2,6 +2,8 @@
 import SPProofs.Comb.Sem
 import SPProofs.Comb.Base
 import SPProofs.Comb.Radix
+import SPProofs.Comb.Perm
+import SPProofs.Comb.Choose
 
 namespace SPModel.Comb
 
